@@ -1,7 +1,7 @@
 //@ item: integer/src/gcd/lehmer.rs :: memory_requirement_ext_up_to
 // The scratch of gcd_ext_in_place: ext_need(lhs_len) = 2 (lhs_len + 1) + gneed(ceil(lhs_len / 2)) Words (see
-// annot/integer/memsize/gcd_ext_in_place.rs).  Written for the text of proposed_fixes/MEM2 (`(lhs_len + 1) / 2`); with the
-// original `lhs_len / 2` the contract fails (genuine defect: the final cofactor product can have lhs_len + 1 words).
+// annot/integer/memsize/gcd_ext_in_place.rs).  With the text before the repair 914fd28 (`lhs_len / 2`) the contract fails (genuine defect: the final cofactor product can
+// have lhs_len + 1 words).
 pub fn memory_requirement_ext_up_to(lhs_len: usize, rhs_len: usize) -> Layout
 /*@
     requires lhs_len >= rhs_len && rhs_len >= 2, lhs_len <= usize::MAX / 16,
